@@ -11,7 +11,7 @@ from fractions import Fraction
 
 import numpy as np
 
-from .. import core
+from .. import core, translate
 from ..scorers import HashLocalAnomalyScore, find_scale, hscore
 from .c07 import greedy_order_exists
 
@@ -251,11 +251,75 @@ def oracle_builtin(case, r):
 # ------------------------------------------------------------------------------------ the check
 
 
+# ------------------------------------------------------------------------------------ route T2: candidate enumeration
+
+L1_LOOPS = {"Skc.L1.LoopsCbs": ["loop_anomaly_intervals"]}
+
+
+def gen_cands(rng, nmax):
+    m = rng.randint(1, 4)
+    s = rng.randint(0, 6)
+    L = rng.choice([2 * m, 2 * m + 1, 3 * m, rng.randint(2 * m, 2 * m + nmax), rng.randint(m, 2 * m)])  # incl. shorter than 2m
+    return {"s": s, "e": s + L, "m": m}
+
+
+def impl_cands(case):
+    from skchange.anomaly_detectors.circular_binseg import make_anomaly_intervals
+
+    try:
+        a, b = make_anomaly_intervals(case["s"], case["e"], case["m"])
+        return {"outcome": "ok", "starts": [int(v) for v in a], "ends": [int(v) for v in b]}
+    except Exception as ex:
+        return {"outcome": "raises:" + type(ex).__name__, "msg": str(ex)[:200]}
+
+
+def cands_line(case):
+    return f"gencands {case['s']} {case['e']} {case['m']}"
+
+
+def canon_cands(case, r):
+    return f"starts {r['starts']} ends {r['ends']}" if r["outcome"] == "ok" else "raises"
+
+
+def oracle_cands(case, r):
+    """every (i, j) strictly inside [s, e) with at least m rows inside and at least m rows left in the surroundings, in
+    lexicographic order"""
+    s, e, m = case["s"], case["e"], case["m"]
+    want = [(i, j) for i in range(s + 1, e) for j in range(i + 1, e) if j - i >= m and (i - s) + (e - j) >= m]
+    if r["outcome"] != "ok":
+        return f"make_anomaly_intervals({s}, {e}, {m}) raises {r['outcome']}"
+    got = list(zip(r["starts"], r["ends"]))
+    if got != want:
+        return f"make_anomaly_intervals({s}, {e}, {m}) lists {got[:6]}... ({len(got)} candidates); by definition there are {len(want)}: {want[:6]}..."
+    return None
+
+
 def run(chk: core.Check):
     tier = chk.tier
     N = {"quick": 1500, "thorough": 30000}[tier]
     nmax = {"quick": 13, "thorough": 24}[tier]
-    chk.lean()
+    status = {}
+
+    def pre():
+        st, _ = translate.run()
+        status.update(st)
+    try:
+        pre()
+    except Exception:
+        pass
+    skipm = {mm: "translator (route T2): " + ", ".join(f"{k}: {status.get(k, {}).get('reason')}" for k in ks
+                                                      if status.get(k, {}).get("state") != "translated")
+             for mm, ks in L1_LOOPS.items() if any(status.get(k, {}).get("state") != "translated" for k in ks)}
+    chk.lean(extra_modules=list(L1_LOOPS), skip_modules=skipm, pre_build=pre)
+    chk.notes["translator"] = {k: status.get(k, {}).get("state") for ks in L1_LOOPS.values() for k in ks}
+    tr = not skipm
+    chk.rules.append(
+        "gen-cands: make_anomaly_intervals(s, e, m) for m in 1..4, s in 0..6 and interval lengths from m to 2m+%d (incl. 2m, 2m+1, 3m), "
+        "against the definition of the candidate set and, line by line, against the Lean definition regenerated from its source "
+        "(driver op `gencands`), which Skc/L1/LoopsCbs.lean proves equal to the model `anomalyIntervals`. " % nmax)
+    chk.run_stream("gen-cands", core.Gen(gen_cands, core.rng_for(chk.seed, "C09/cands"), nmax, N // 2), impl_cands,
+                   line=cands_line if tr else None, canon=canon_cands if tr else None, oracle=oracle_cands,
+                   site="make_anomaly_intervals", nontrivial=lambda c, r: r.get("outcome") == "ok" and len(r["starts"]) > 0)
     chk.rules.append(
         "cbs-hash: CircularBinarySegmentation with hash local anomaly scores (integer landscapes modulo R, negative values "
         "included), m in 1..3, n in 2m..%d, exact thresholds 0..R via the scale or tuned thresholds; pair: threshold pairs; "
@@ -293,7 +357,7 @@ def run(chk: core.Check):
                    site="CircularBinarySegmentation/builtin",
                    nontrivial=lambda c, r: r.get("outcome") == "ok" and len(r["anoms"]) > 0,
                    describe=lambda c: {k: v for k, v in c.items() if k != "X"} | {"X[:4]": c["X"][:4]})
-    return chk.finish()
+    return chk.finish(trusted_extra=["the loop translator harness/translate_loops.py (reading of make_anomaly_intervals: nested for loops over range, appends to two lists), validated line by line in stream gen-cands"])
 
 
 def replay(path):
